@@ -268,6 +268,10 @@ impl<'a> Job for BuildJob<'a> {
             if (self.flavour == 1) != case.shape.aux.is_some() {
                 continue;
             }
+            // the wide-trace flavour always carries a few bytes of trace metadata
+            if self.flavour == 2 && case.shape.meta.is_empty() {
+                case.shape.meta = vec![0x4d, 0x45, 0x54, 0x41, 0x21];
+            }
             // a base must not be degenerate: a (nearly) constant trace gives a proof whose
             // content does not depend on the challenges and whose Merkle leaves are all equal,
             // so that many different byte strings are *correct* proofs of the same statement
